@@ -32,6 +32,10 @@ CHECKS = {
          "Explicit-state exploration of (program, initial state, step): every program of the kernel family (single-transfer: each of ~1650 instructions after every state-setting prefix of length <= 1 quick / <= 2 thorough; all sequences over a 25-symbol alphabet up to length 3/4; all control-flow sequences over 12/14 symbols up to length 4/5; 10 loop/diamond/irreducible/recursion/multi-return skeletons; each as main program and as called function) is analysed by the real Manager::gen_full_cfg and executed by the harness's interpreter from 8/32 initial states to exit or a 256-step horizon; at every arrival/departure every Constant / Address / entry-value+k claim on registers and stack slots is compared with the machine. The model (interpreter) trace is bound 1:1 to the implementation's CFG nodes.",
          "Trusted: the reference interpreter (two cross-checked ALUs) and the activation monitor that stops checking where an execution leaves the property's supported subset. Programs longer than the bounds, immediates outside the alphabets and the un-named claim kinds (memory-at-register, CSR) are not covered.",
          "DESIGN.md 3 C01"),
+ "C04": ("bounded-exhaustive enumeration of convention-conforming programs (by construction, confirmed per member by a dynamic convention monitor); oracle: zero diagnostics",
+         "Family S: main plus 1..3 functions over the product of call-graph shapes (chains, fan-out, repeated calls, diamonds, self-recursion) x per-function options (arity 0..2, returns or prints, 6 body skeletons, input ecall, frame slot order, padding, second saved register): every member is executed by the reference interpreter under the convention monitor on every environment answer in {-1,0,1,2} x 2 register fills (sp/ra/saved registers restored from the own frame, only defined registers read, nothing caller-saved alive across call/ecall, every computed value read, every instruction executed) and must then draw zero diagnostics from the whole pipeline (parse errors, CFG errors, all eleven lints).",
+         "Trusted: generator + monitor (a member the monitor rejects fails the run as a machinery class; members with code no explored input reaches are left out and counted). Conforming idioms outside the grammar (frame pointer, stack-passed arguments, tail calls) are not covered.",
+         "DESIGN.md 3 C04"),
  "C06": ("bounded-exhaustive enumeration of hostile inputs (strings, token sequences, mutations, include graphs x reader fault sequences, scaled repetitions, CLI modes) with crash/hang attribution per case in worker subprocesses",
          "Complete enumeration, in a release and an overflow-checked build, of: all strings over a 20-character alphabet up to length 3/4 through RVParser::run and length 4/5 through lexer+parser; all token sequences up to length 2/3 over 57 tokens; every single-token deletion/duplication/replacement of 17/27 seed programs; all 512 include graphs on 3 files x every reader-answer sequence with <= 1/2 faults; every unit string/token repeated 1000/20000(/200000) times (stack depth, growth) and 14 statement kinds repeated 250/1000(/2000) times through the full pipeline; ~600 on-disk cases (include cycles, missing/unreadable files, wide characters) through every output mode of the dev and release rva binaries. A panic is caught in process; an abort, stack overflow, OOM or hang kills the worker and is attributed to the announced case.",
          "Termination is decided by work bounds (pass sweeps <= 4*nodes+32, <= 64 import requests) and wall watchdogs (10 s CLI, 120 s per case); polynomial time is checked as absolute envelopes at three scales, not proved.",
